@@ -34,6 +34,20 @@ Streams
           reference = new Sampler with a new Source, perfect = ideal, g2 = 1 - purity (one emitter), HOM
           visibility = indistinguishability (50:50 splitter); and against the exact model (stateless: called with
           the current parameters).  A directed corpus (hist_corpus) runs first.
+          Circuit dimension: the CIRCUIT of a long-lived Sampler is re-assigned (Sampler.circuit = another object
+          with other input heralds - other herald modes / herald photon numbers 0, 1, 2 / other total size - and
+          the same or another number of input modes; back to an earlier object: both orders) or edited IN PLACE
+          (heralded gates added, a herald declared, components appended) between reads, Sampler.input_state is
+          re-assigned, interleaved with assignments to the shared Source; every read is judged at the CURRENT
+          circuit / input / settings against the mixture reference on a circuit rebuilt from the program, a new
+          Sampler and the exact model.
+  g2f     exact float purities 1 - 1e-k and 0.5 + 1e-k (no rational two-photon weight exists: oracle only)
+
+Parameter boundaries (EDGE grids): brightness / sqrt(indistinguishability) / threshold 1 - 1e-k and 1e-k for
+k = 1..8 as exact rationals; two-photon weights x = 1/d on a geometric grid down to 5e-5 (purity up to
+1 - 1e-4, on both sides of every plausible threshold of a numerical shortcut) and near 1 (purity near 0.5);
+smaller x (X_CANCEL, purity within 1e-4 of 1, where the closed form of the library loses digits) are judged in the
+stats / g2 streams at the property's own tolerance (g2 within 1e-9).  A directed corpus (par_corpus) runs first.
 """
 
 from __future__ import annotations
@@ -41,6 +55,7 @@ from __future__ import annotations
 import itertools
 import json
 import math
+import os
 from fractions import Fraction as F
 
 import numpy as np
@@ -48,7 +63,7 @@ import numpy as np
 import circgen as cg
 import fockgen as fg
 import lightworks as lw
-from core import Ctx, ddmin, exc_class, frac_str
+from core import PYTH, Ctx, ddmin, exc_class, frac_str
 from lightworks import emulator
 from lightworks.emulator.components.source import purity_to_prob
 from props.c04 import get_eps
@@ -72,12 +87,32 @@ NU = [F(1), F(1), F(1, 2), F(3, 4), F(1, 3), F(9, 10), F(1, 10), F(0)]
 X = [F(0), F(0), F(1, 3), F(1, 10), F(1, 2), F(9, 10), F(1, 20)]
 QS = [F(1), F(1), F(0), F(1, 2), F(3, 5), F(9, 10), F(1, 3)]
 THR = [F(0)] * 5 + [F(1, 100), F(1, 20), F(1, 7), F(1, 3), F(9, 10)]
+# Boundaries and their neighbourhoods (exact rationals; the float handed to the code is derived from them)
+NEAR1 = [1 - F(1, 10**k) for k in range(1, 9)]  # 1 - 1e-k
+TINY = [F(1, 10**k) for k in range(1, 9)]  # 1e-k
+NU_EDGE = NEAR1 + TINY + [F(1), F(0)]
+Q_EDGE = NEAR1 + TINY + [F(1), F(0), F(7, 10), F(71, 100)]  # q^2 around 1/2 as well
+# two-photon weight: 1 - purity ~ 2x.  Geometric grid (ratio <= 2.5) from 1/7 down to 5e-5: whatever threshold
+# T >= 2.5e-4 on 1 - purity a shortcut uses, some x lies in [T/5, T/2) where a leading-order formula is off by
+# >= 0.08 T^2 >> 1e-12; values next to 1 (purity next to its lower limit 0.5)
+X_EDGE = [F(1, d) for d in (7, 15, 30, 60, 101, 125, 150, 200, 251, 300, 400, 500, 700, 1000, 1500, 2000, 3000,
+                            5000, 7000, 10000, 15000, 20000)] + [F(99, 100), F(999, 1000), F(19, 20)]
+# below 5e-5 the library's closed form (difference of two numbers ~ 1/(1 - purity)) cannot reach 1e-12; these
+# weights (1 - purity ~ 1e-5 .. 1e-8) are judged at the tolerance of the property itself (g2 within 1e-9, i.e.
+# x within 5e-10), in the stats / g2 streams only
+X_CANCEL = [F(1, 2 * 10**k) for k in range(5, 9)] + [F(1, 3 * 10**5), F(1, 7 * 10**6)]
+X_WELL = F(1, 20000)
+THR_EDGE = TINY + NEAR1 + [F(1)]
+# True = the cancellation range is generated and judged; False = skipped and counted (VERIF_C06_CANCELLATION=0
+# switches it off for one run, e.g. to look at other findings while the library's closed form is unrepaired)
+INCLUDE_CANCELLATION_RANGE = os.environ.get("VERIF_C06_CANCELLATION", "1") != "0"
 # A probability_threshold above every input probability leaves no input: the model (and the candidate
 # repair of the library) rejects it with ValueError; the pinned library returns empty, un-normalised
 # statistics and the Sampler then fails inside multimethod (DispatchError).  True = such cases are
 # generated and judged (a directed one on every run); False = they are skipped and counted.
 INCLUDE_OVER_THRESHOLD = True
 N_HIST_QUICK = 70  # random histories at quick tier (the directed ones of hist_corpus() always run first)
+N_HIST_CIRC_QUICK = 45  # random histories with circuit / input changes at quick tier
 
 
 # --------------------------------------------------------------------------- parameters
@@ -87,9 +122,15 @@ def purity_of(x: F) -> float:
     return float(1 - 2 * x / (1 + x) ** 2)
 
 
-def gen_par(rng, thr: bool = True) -> dict:
-    return {"nu": frac_str(rng.choice(NU)), "x": frac_str(rng.choice(X)), "q": frac_str(rng.choice(QS)),
-            "thr": frac_str(rng.choice(THR) if thr else F(0))}
+def gen_par(rng, thr: bool = True, edge: float = 0.3, cancel: bool = False) -> dict:
+    """each parameter from its regular grid or (probability `edge`) from the boundary grid; cancel = the
+    two-photon weight may come from X_CANCEL (streams that do not compare probabilities at 1e-9)"""
+    def pick(grid, edges):
+        return rng.choice(edges) if rng.random() < edge else rng.choice(grid)
+
+    xe = X_EDGE + (X_CANCEL if cancel and INCLUDE_CANCELLATION_RANGE else [])
+    return {"nu": frac_str(pick(NU, NU_EDGE)), "x": frac_str(pick(X, xe)), "q": frac_str(pick(QS, Q_EDGE)),
+            "thr": frac_str((rng.choice(THR_EDGE) if rng.random() < edge / 2 else rng.choice(THR)) if thr else F(0))}
 
 
 def par_vals(par: dict):
@@ -111,7 +152,10 @@ def check_par(par: dict) -> list[str]:
     nu, x, q, _ = par_vals(par)
     out = []
     p1 = purity_to_prob(purity_of(x))
-    if abs(p1 - float(1 - x)) > 1e-12:
+    # 1e-12 where the closed form is well conditioned; in the cancellation range the tolerance of the clause
+    # itself: g2 = 2x/(1+x)^2 within 1e-9  <=>  x within 5e-10
+    tol = 1e-12 if x == 0 or x >= X_WELL else 5e-10
+    if abs(p1 - float(1 - x)) > tol:
         out.append(f"oracle: purity_to_prob({purity_of(x)!r}) = {p1!r}, not 1 - x = {float(1 - x)!r}: the two-photon weight "
                    "is not the root of x^2 + bx + 1 (g2 = 1 - purity fails)")
     if abs(float(q * q) ** 0.5 - float(q)) > 1e-12:
@@ -529,6 +573,29 @@ def run_hom(ctx: Ctx, case: dict) -> list[str]:
     return probs
 
 
+def run_g2f(ctx: Ctx, case: dict) -> list[str]:
+    """exact float purities (1 - 1e-k, 0.5 + 1e-k, ...): no rational two-photon weight exists, so the model
+    is not asked; the clause g2 = 1 - purity is evaluated on the implementation alone"""
+    ctx.count("g2f:oracle-only")
+    probs = []
+    purity = float(case["purity"])
+    nu, q = F(case["nu"]), F(case["q"])
+    c = lw.Circuit(1)
+    for b in ("permanent", "slos"):
+        src = emulator.Source(purity=purity, brightness=float(nu), indistinguishability=float(q * q))
+        d = impl_dist(c, [1], src, b)
+        p1, p2 = d.get((1,), 0.0), d.get((2,), 0.0)
+        if any(k[0] > 2 for k in d):
+            probs.append(f"oracle[{b}]: one emitter produced more than two photons")
+        if abs(sum(d.values()) - 1) > 1e-9:
+            probs.append(f"oracle[{b}]: output distribution sums to {sum(d.values())!r}")
+        g2 = 2 * p2 / (p1 + 2 * p2) ** 2
+        if abs(g2 - (1 - purity)) > 1e-9:
+            probs.append(f"oracle[{b}]: Source(purity={purity!r}, brightness={float(nu)!r}): g2 of the emitted photon-number "
+                         f"statistics = {g2!r}, 1 - purity = {1 - purity!r}")
+    return probs
+
+
 # --------------------------------------------------------------------------- malformed stream
 
 BAD_VALUES = [
@@ -632,7 +699,8 @@ def show_par(par: dict) -> str:
 
 def hist_script(case: dict) -> list[str]:
     """the history as Python text (for the replay file)"""
-    out = ["c = <circuit built by case['prog']>"]
+    progs = case.get("progs") or [case["prog"]]
+    out = ["c = c0 = <circuit built by case['prog']>"] + [f"c{k} = <circuit 'c1' built by case['progs'][{k}]>" for k in range(1, len(progs))]
     out.append("src = emulator.Source()" if case["ctor"] == "default" else f"src = emulator.Source({show_par(case['init'])})")
     for i, sp in enumerate(case["samplers"]):
         if sp["attach"] == "setter":
@@ -646,8 +714,15 @@ def hist_script(case: dict) -> list[str]:
                 out.append(f"{tgt}.{ATTR[key]} = {attr_value(key, F(val), form)!r}")
         elif st["op"] == "bad":
             out.append(f"src.{ATTR[st['attr']]} = {py_val(st['value'])!r}   # must be rejected and change nothing")
+        elif st["op"] == "circuit":
+            out.extend(f"s{i}.circuit = c{st['slot']}" for i in st["who"])
+        elif st["op"] == "edit":
+            out.append(f"<in place on c{st['slot']}: " + "; ".join(json.dumps(op) for op in st["ops"]) + ">")
+        elif st["op"] == "input":
+            out.append(f"s{st['who']}.input_state = lw.State({st['input']})")
         else:
             out.append(f"src = emulator.Source({show_par(st['par'])}); " + "; ".join(f"s{i}.source = src" for i in range(len(case["samplers"]))))
+        out.extend(f"s{i}.input_state = lw.State({v})" for i, v in st.get("inputs", []))
         obs = [f"s{i}.probability_distribution" for i in st["use"]] + ([f"src.check_number(lw.State({case['state']}))"] if st["stats"] else [])
         out.append(f"observe[{k}]: " + (", ".join(obs) or "-"))
     return out
@@ -664,8 +739,48 @@ def dist_diff(a: dict, b: dict, tol: float):
     return None
 
 
-def hist_observe(ctx: Ctx, case: dict, c, r: Ref, src, samplers: list, step: dict, cur: dict, memo: dict, where: str) -> list[str]:
-    """judge the observables of the long-lived objects at the current settings `cur`"""
+class NotACase(Exception):
+    """the (shrunk) history is not well formed: a step cannot be applied / input sizes do not match"""
+
+
+class HistEnv:
+    """the circuits of one history: slot k holds the live object built from case['progs'][k] (edited in place by
+    'edit' steps, its program growing with it); sampler i currently holds the object of slot self.slot[i] and
+    the input self.inp[i]"""
+
+    def __init__(self, case: dict) -> None:
+        progs = case.get("progs") or [case["prog"]]
+        self.progs = [list(p) for p in progs]
+        self.pools = [fg.build_impl(p) for p in self.progs]
+        self.edited = [False] * len(progs)
+        self.slot = [0] * len(case["samplers"])
+        self.inp = [list(sp["input"]) for sp in case["samplers"]]
+        self._rebuilt: dict = {}
+
+    def circ(self, i: int):
+        return self.pools[self.slot[i]].get("c1")
+
+    def prog(self, i: int) -> list:
+        return self.progs[self.slot[i]]
+
+    def name(self, i: int) -> str:
+        k = self.slot[i]
+        return f"c{k}" + (" (edited in place)" if self.edited[k] else "")
+
+    def rebuilt(self, i: int):
+        """(circuit built anew from the current program of sampler i's circuit, its Ref, version key)"""
+        vk = json.dumps(self.prog(i))
+        if vk not in self._rebuilt:
+            c = fg.build_impl(self.prog(i)).get("c1")
+            if c is None or np.array(c.U_full).shape[0] > 9:
+                raise NotACase
+            self._rebuilt[vk] = (c, Ref(c, float(get_eps())))
+        return (*self._rebuilt[vk], vk)
+
+
+def hist_observe(ctx: Ctx, case: dict, env: HistEnv, src, samplers: list, step: dict, cur: dict, memo: dict, where: str) -> list[str]:
+    """judge the observables of the long-lived objects at the current settings `cur` (and the current circuit
+    and input of every Sampler)"""
     probs = check_par(cur)
     if probs:
         return probs
@@ -754,8 +869,11 @@ def hist_observe(ctx: Ctx, case: dict, c, r: Ref, src, samplers: list, step: dic
         if i >= len(samplers):
             continue
         sp = case["samplers"][i]
-        b, inp = sp["backend"], sp["input"]
-        tag = f"{where}, sampler {i} [{b}] input {inp}"
+        b, inp = sp["backend"], env.inp[i]
+        c, r, vk = env.rebuilt(i)
+        if c.input_modes != len(inp):
+            raise NotACase
+        tag = f"{where}, sampler {i} [{b}]" + (f" circuit {env.name(i)}" if len(env.progs) > 1 or any(env.edited) else "") + f" input {inp}"
         full_in = fg.add_heralds(inp, c.heralds["input"])
         inputs, amb = reference(full_in)
         try:
@@ -789,7 +907,7 @@ def hist_observe(ctx: Ctx, case: dict, c, r: Ref, src, samplers: list, step: dic
         if d is not None:
             slack = 0.0
             if inputs is not None and not amb:
-                k = ("mix", tuple(full_in), pkey)
+                k = ("mix", vk, tuple(full_in), pkey)
                 if k not in memo:
                     memo[k] = r.mixture(inputs)
                 ref = memo[k]
@@ -804,7 +922,8 @@ def hist_observe(ctx: Ctx, case: dict, c, r: Ref, src, samplers: list, step: dic
                 s = dist_diff(d, ref, 1e-9 + slack)
                 if s is not None:
                     same = "the same" if dist_diff(d, fr, 1e-9 + slack) is None else f"{fr.get(s, 0.0):.10g}"
-                    probs.append(f"oracle: {tag}: with the source now set to {show_par(cur)}, P{list(s)} = {d.get(s, 0.0):.10g} but the mixture "
+                    probs.append(f"oracle: {tag}: with the source now set to {show_par(cur)} and the full input (with the heralds of the "
+                                 f"current circuit) {full_in}, P{list(s)} = {d.get(s, 0.0):.10g} but the mixture "
                                  f"over per-photon emission outcomes of the independent group distributions gives {ref.get(s, 0.0):.10g} "
                                  f"(a new Sampler with a new Source of these settings gives {same})")
                 if probs:
@@ -827,7 +946,7 @@ def hist_observe(ctx: Ctx, case: dict, c, r: Ref, src, samplers: list, step: dic
                         return probs
                 if thr == 0 and x == 0 and nu > 0 and c.n_modes == 2 and full_in == [1, 1] and \
                         r.group((1, 1)).get((1, 1), 0.0) < 1e-12:
-                    k0 = ("mix0", pkey)
+                    k0 = ("mix0", vk, pkey)
                     if k0 not in memo:
                         memo[k0] = r.mixture(ref_inputs(full_in, nu, x, F(0))).get((1, 1), 0.0)
                     pc0 = memo[k0]
@@ -845,9 +964,9 @@ def hist_observe(ctx: Ctx, case: dict, c, r: Ref, src, samplers: list, step: dic
         if amb:
             continue
         # correspondence with the exact model at the current settings
-        k = ("mdist", tuple(inp), b, pkey)
+        k = ("mdist", vk, tuple(inp), b, pkey)
         if k not in memo:
-            memo[k] = ctx.model.call({"op": "c06", "what": "dist", "prog": case["prog"], "id": "c1", "input": inp, "backend": b,
+            memo[k] = ctx.model.call({"op": "c06", "what": "dist", "prog": env.prog(i), "id": "c1", "input": inp, "backend": b,
                                       "eps": frac_str(eps), **par_req(cur)})
         m = memo[k]
         if "error_class" in m:
@@ -871,8 +990,29 @@ def hist_observe(ctx: Ctx, case: dict, c, r: Ref, src, samplers: list, step: dic
 
 
 def run_hist(ctx: Ctx, case: dict) -> list[str]:
-    pool = fg.build_impl(case["prog"])
-    c = pool.get("c1")
+    try:
+        return run_hist_steps(ctx, case)
+    except NotACase:
+        return []  # shrinking produced a history that cannot be played: not a case
+
+
+def assign_inputs(env: HistEnv, samplers: list, pairs: list, where: str) -> list[str]:
+    for i, inp in pairs:
+        if i >= len(samplers):
+            continue
+        if env.circ(i) is None or env.circ(i).input_modes != len(inp):
+            raise NotACase
+        try:
+            samplers[i].input_state = lw.State(inp)
+        except Exception as e:  # noqa: BLE001
+            return [f"oracle: {where}: assigning the valid input {inp} to Sampler.input_state raised {exc_class(e)}"]
+        env.inp[i] = list(inp)
+    return []
+
+
+def run_hist_steps(ctx: Ctx, case: dict) -> list[str]:
+    env = HistEnv(case)
+    c = env.pools[0].get("c1")
     if c is None:
         return []
     if any(c.input_modes != len(sp["input"]) for sp in case["samplers"]):
@@ -890,7 +1030,6 @@ def run_hist(ctx: Ctx, case: dict) -> list[str]:
         else:
             s = emulator.Sampler(c, lw.State(sp["input"]), source=src, backend=sp["backend"])
         samplers.append(s)
-    r = Ref(c, float(get_eps()))
     memo: dict = {}
     for k, step in enumerate(case["steps"]):
         where = f"step {k}"
@@ -924,16 +1063,64 @@ def run_hist(ctx: Ctx, case: dict) -> list[str]:
             if mod == "ok":
                 return []  # not a rejected assignment (never generated)
             where += f" after the rejected assignment {ATTR[a]} = {py_val(bv)!r}"
+        elif step["op"] == "circuit":
+            # Sampler.circuit = the (long-lived) object of another slot; the input is kept unless listed
+            ks = step["slot"]
+            if ks >= len(env.pools) or env.pools[ks].get("c1") is None:
+                raise NotACase
+            obj = env.pools[ks]["c1"]
+            who = [i for i in step["who"] if i < len(samplers)]
+            for i in who:
+                try:
+                    samplers[i].circuit = obj
+                except Exception as e:  # noqa: BLE001
+                    return [f"oracle: {where}: assigning a Circuit to Sampler.circuit raised {exc_class(e)}"]
+                env.slot[i] = ks
+            where += f" after sampler {who}.circuit = c{ks}" + (" (edited in place)" if env.edited[ks] else "")
+            probs = assign_inputs(env, samplers, step.get("inputs", []), where)
+            if probs:
+                return probs
+            if step.get("inputs"):
+                where += ", input_state = " + ", ".join(str(v) for _, v in step["inputs"])
+        elif step["op"] == "edit":
+            # the circuit object of a slot (held by Samplers or not) is changed in place
+            ks = step["slot"]
+            if ks >= len(env.pools):
+                raise NotACase
+            for op in step["ops"]:
+                if not cg.well_formed(env.progs[ks] + [op]) or cg.apply_op(env.pools[ks], op) != "ok":
+                    raise NotACase
+                env.progs[ks].append(op)
+            env.edited[ks] = True
+            where += f" after editing c{ks} in place (" + ", ".join(describe_op(op) for op in step["ops"] if op[1] == "c1") + ")"
+            probs = assign_inputs(env, samplers, step.get("inputs", []), where)
+            if probs:
+                return probs
+            if step.get("inputs"):
+                where += ", input_state = " + ", ".join(str(v) for _, v in step["inputs"])
+        elif step["op"] == "input":
+            where += f" after sampler {step['who']}.input_state = {step['input']}"
+            probs = assign_inputs(env, samplers, [[step["who"], step["input"]]], where)
+            if probs:
+                return probs
         else:
             cur = dict(step["par"])
             src = make_source(cur)
             for s in samplers:
                 s.source = src
             where += " after Sampler.source = new Source"
-        probs = hist_observe(ctx, case, c, r, src, samplers, step, cur, memo, where)
+        probs = hist_observe(ctx, case, env, src, samplers, step, cur, memo, where)
         if probs:
             return probs
     return probs
+
+
+def describe_op(op: list) -> str:
+    if op[0] == "add":
+        return f"add({op[2]}, {op[3]}, group={op[4]})"
+    if op[0] == "herald":
+        return f"herald({op[2]}, {op[3]}, {op[4]})"
+    return op[0]
 
 
 def gen_steps(rng, init: dict, nsamp: int, n_steps: int) -> list[dict]:
@@ -1037,6 +1224,212 @@ def gen_hist(ctx: Ctx, rng):
             "photons": max([sum(sp["input"]) for sp in samplers] + [0]) + hp}
 
 
+# ---- circuit dimension of the histories -------------------------------------------------------------------
+
+MIX = [(c, s) for c, s in PYTH if c != 0 and s != 0]
+# herald photon numbers of one circuit variant (each entry = one heralded mode)
+HERALD_SPECS = [[], [], [0], [1], [1], [2], [0, 1], [1, 0], [1, 1], [0, 0], [2, 0], [0, 2]]
+
+
+def heralded_gate(rng, sid: str, ks: list[int]) -> list:
+    """program of a small sub-circuit `sid` with len(ks) heralded modes (photon numbers ks) and ONE free mode"""
+    n = len(ks) + 1
+    ops = [["new", sid, n]]
+    for a in range(n - 1):
+        c, s = rng.choice(MIX)
+        ops.append(cg.op_bs(sid, a, a + 1, c, s, rng.choice(["Rx", "H"])))
+    ins = rng.sample(range(n), len(ks))
+    outs = list(ins) if rng.random() < 0.5 else rng.sample(range(n), len(ks))
+    ops += [["herald", sid, k, i, o] for k, i, o in zip(ks, ins, outs)]
+    return ops
+
+
+def variant_prog(rng, m: int, spec: list[int], lossy: bool):
+    """program of a circuit 'c1' with m input modes whose input heralds carry the photon numbers `spec`; every
+    heralded mode is declared on the circuit itself (any input / output mode) or comes with a heralded gate
+    added to it (grouped or not).  Returns (prog, meta)"""
+    own = [k for k in spec if rng.random() < 0.6]
+    sub = list(spec)
+    for k in own:
+        sub.remove(k)
+    n = m + len(own)
+    body: list = []
+    if n >= 2:
+        a, b = rng.sample(range(n), 2)
+        c, s = rng.choice(MIX)
+        body.append(cg.op_bs("c1", a, b, c, s, rng.choice(["Rx", "H"])))
+    for _ in range(rng.randint(0, 2)):
+        body.append(cg.rand_prim_op(rng, "c1", n, allow_loss=lossy))
+    ins = rng.sample(range(n), len(own))
+    outs = list(ins) if rng.random() < 0.5 else rng.sample(range(n), len(own))
+    for k, i, o in zip(own, ins, outs):
+        body.insert(rng.randint(0, len(body)), ["herald", "c1", k, i, o])
+    pre: list = []
+    for j, k in enumerate(sub):
+        pre += heralded_gate(rng, f"h{j}", [k])
+        body.insert(rng.randint(0, len(body)), ["add", "c1", f"h{j}", rng.randrange(n), rng.random() < 0.5])
+    meta = {"n": n, "m": m, "own_in": set(ins), "own_out": set(outs), "hp": sum(spec)}
+    return pre + [["new", "c1", n]] + body, meta
+
+
+def gen_edit(rng, meta: dict, budget: int, eid: str, lossy: bool):
+    """an in-place edit of a circuit (ops, herald photons added, input modes removed)"""
+    r = rng.random()
+    kmax = max(0, min(2, budget))
+    if r < 0.5:  # a heralded gate is added (1 or 2 heralded modes)
+        ks = [rng.choice([0, 1, 1, 2])] if rng.random() < 0.8 else [rng.choice([0, 1]), rng.choice([0, 1])]
+        while sum(ks) > kmax:
+            ks[ks.index(max(ks))] -= 1
+        ops = heralded_gate(rng, eid, ks) + [["add", "c1", eid, rng.randrange(meta["n"]), rng.random() < 0.5]]
+        meta["hp"] += sum(ks)
+        return ops, "heralded_gate_added", 0
+    if r < 0.7 and meta["m"] >= 2:  # a herald is declared on the circuit itself: one input mode fewer
+        fi = [a for a in range(meta["n"]) if a not in meta["own_in"]]
+        fo = [a for a in range(meta["n"]) if a not in meta["own_out"]]
+        i, o = rng.choice(fi), rng.choice(fo)
+        if rng.random() < 0.5 and i in fo:
+            o = i
+        k = min(rng.choice([0, 1, 1, 2]), kmax)
+        meta["own_in"].add(i)
+        meta["own_out"].add(o)
+        meta["hp"] += k
+        meta["m"] -= 1
+        return [["herald", "c1", k, i, o]], "herald_declared", 1
+    ops = [cg.rand_prim_op(rng, "c1", meta["n"], allow_loss=lossy) for _ in range(rng.randint(1, 2))]
+    return ops, "components_appended", 0
+
+
+def hist_validate(case: dict, cap: int):
+    """plays the structural part of a history; largest photon number over all reads, or None when some read is
+    outside the exact model's budget / not well formed"""
+    try:
+        env = HistEnv(case)
+    except Exception:  # noqa: BLE001
+        return None
+    worst = 0
+    for st in case["steps"]:
+        if st["op"] == "circuit":
+            for i in st["who"]:
+                env.slot[i] = st["slot"]
+        elif st["op"] == "edit":
+            for op in st["ops"]:
+                if not cg.well_formed(env.progs[st["slot"]] + [op]) or cg.apply_op(env.pools[st["slot"]], op) != "ok":
+                    return None
+                env.progs[st["slot"]].append(op)
+        elif st["op"] == "input":
+            env.inp[st["who"]] = list(st["input"])
+        for i, v in st.get("inputs", []):
+            env.inp[i] = list(v)
+        for i in st["use"]:
+            c = env.circ(i)
+            if c is None or c.input_modes != len(env.inp[i]) or np.array(c.U_full).shape[0] > 8:
+                return None
+            tot = sum(env.inp[i]) + fg.herald_photons(c)
+            if tot > cap:
+                return None
+            worst = max(worst, tot)
+    return worst
+
+
+def gen_hist_circ(ctx: Ctx, rng):
+    """history in which the circuit / input of long-lived Samplers changes between reads"""
+    cap = 4 if ctx.thorough else 3
+    m = rng.choice([1, 2, 2, 3])
+    nsl = rng.choice([2, 2, 3])
+    specs: list = []
+    while len(specs) < nsl:
+        sp = rng.choice(HERALD_SPECS)
+        # the same photon numbers twice (then on other modes / realised differently) only sometimes
+        if sum(sp) <= cap - 1 and (sp not in specs or rng.random() < 0.25):
+            specs.append(sp)
+    lossy = rng.random() < 0.35
+    built = [variant_prog(rng, m, sp, lossy) for sp in specs]
+    progs, metas = [b[0] for b in built], [b[1] for b in built]
+    room = cap - max(sum(sp) for sp in specs)
+    inp = fg.rand_state(rng, m, rng.randint(1, room))
+    r = rng.random()
+    if r < 0.12:
+        init = dict(PERFECT)
+    elif r < 0.22:
+        init = {"nu": frac_str(rng.choice(NU + NU_EDGE)), "x": "0", "q": "1", "thr": "0"}
+    else:
+        init = gen_par(rng, thr=rng.random() < 0.15, edge=0.15)
+        if is_basic(init):
+            init["q"] = "3/5"
+    ctor = "default" if init == PERFECT and rng.random() < 0.6 else "kwargs"
+    ns = rng.choice([1, 1, 2])
+    samplers = []
+    for i in range(ns):
+        inp_i = inp if i == 0 or rng.random() < 0.5 else fg.rand_state(rng, m, rng.randint(0, room))
+        samplers.append({"backend": rng.choice(["permanent", "slos"]), "input": list(inp_i),
+                         "attach": "setter" if rng.random() < 0.2 else "ctor"})
+    slot_of = [0] * ns
+    inps = [list(sp["input"]) for sp in samplers]
+    cur = dict(init)
+    steps: list = []
+    n_steps = rng.randint(3, 6)
+    grids = {"nu": NU, "x": X, "q": QS}
+    for k in range(n_steps):
+        use = [i for i in range(ns) if rng.random() < 0.85]
+        stats = rng.random() < 0.15
+        if k == n_steps - 1:
+            use = list(range(ns))
+        r0 = rng.random()
+        if k == 0 and r0 < 0.7:  # read with the first circuit before anything changes
+            steps.append({"op": "set", "set": [], "use": list(range(ns)), "stats": stats})
+            continue
+        if r0 < 0.45:
+            who = list(range(ns)) if rng.random() < 0.6 else [rng.randrange(ns)]
+            ks = rng.choice([s for s in range(nsl) if any(slot_of[i] != s for i in who)])
+            step = {"op": "circuit", "slot": ks, "who": who, "use": use, "stats": stats}
+            new_inputs = []
+            for i in who:
+                slot_of[i] = ks
+                if len(inps[i]) != metas[ks]["m"] or sum(inps[i]) + metas[ks]["hp"] > cap:
+                    inps[i] = fg.rand_state(rng, metas[ks]["m"], rng.randint(0, max(0, cap - metas[ks]["hp"])))
+                    new_inputs.append([i, list(inps[i])])
+            if new_inputs:
+                step["inputs"] = new_inputs
+            steps.append(step)
+        elif r0 < 0.65:
+            held = sorted(set(slot_of))
+            ks = rng.choice(held) if rng.random() < 0.75 else rng.randrange(nsl)
+            on = [i for i in range(ns) if slot_of[i] == ks]
+            budget = cap - metas[ks]["hp"] - max([sum(inps[i]) for i in on] or [0])
+            ops, what, dm = gen_edit(rng, metas[ks], budget, f"e{k}", lossy)
+            step = {"op": "edit", "slot": ks, "ops": ops, "what": what, "use": use, "stats": stats}
+            if dm:
+                new_inputs = []
+                for i in on:
+                    inps[i] = fg.rand_state(rng, metas[ks]["m"], rng.randint(0, max(0, cap - metas[ks]["hp"])))
+                    new_inputs.append([i, list(inps[i])])
+                step["inputs"] = new_inputs
+            steps.append(step)
+        elif r0 < 0.75:
+            i = rng.randrange(ns)
+            ks = slot_of[i]
+            for _ in range(5):
+                new = fg.rand_state(rng, metas[ks]["m"], rng.randint(0, max(0, cap - metas[ks]["hp"])))
+                if new != inps[i]:
+                    break
+            inps[i] = new
+            steps.append({"op": "input", "who": i, "input": list(new), "use": use, "stats": stats})
+        elif r0 < 0.90:
+            key = rng.choice(["nu", "x", "q", "q", "x"])
+            val = frac_str(rng.choice(grids[key]))
+            cur[key] = val
+            steps.append({"op": "set", "set": [[key, val, "float"]], "use": use, "stats": stats})
+        else:
+            steps.append({"op": "set", "set": [], "use": use, "stats": stats})
+    case = {"kind": "hist", "prog": progs[0], "progs": progs, "ctor": ctor, "init": init, "samplers": samplers,
+            "state": fg.add_heralds(inp, {}) if rng.random() < 0.7 else gen_state(rng, 4, 3), "steps": steps}
+    worst = hist_validate(case, cap)
+    if worst is None:
+        return None
+    case["photons"] = worst
+    return case
+
+
 def hist_corpus() -> list[dict]:
     """directed histories that always run first"""
     def st(sets, use=(0, 1), stats=True):
@@ -1093,6 +1486,118 @@ def hist_corpus() -> list[dict]:
     out.append({"kind": "hist", "prog": WIRE_PROG, "ctor": "default", "init": dict(PERFECT), "samplers": [], "state": [1, 0, 0, 2],
                 "steps": [st([], []), st([["x", "1/10"]], []), st([["x", "0"], ["q", "1/2"]], []), st([["q", "1"]], []),
                           st([["nu", "1/2"], ["thr", "1/20"], ["q", "3/5"]], [])], "photons": 3})
+    return out + hist_circ_corpus()
+
+
+def hist_circ_corpus() -> list[dict]:
+    """directed histories in which the circuit / input of long-lived Samplers changes between reads"""
+    def rd(use=(0,), stats=False):
+        return {"op": "set", "set": [], "use": list(use), "stats": stats}
+
+    def st(sets, use=(0,), stats=False):
+        return {"op": "set", "set": [[k, v, "float"] for k, v in sets], "use": list(use), "stats": stats}
+
+    def ci(slot, who=(0,), use=None, inputs=None):
+        d = {"op": "circuit", "slot": slot, "who": list(who), "use": list(who if use is None else use), "stats": False}
+        if inputs:
+            d["inputs"] = inputs
+        return d
+
+    def ed(slot, ops, what, use=(0,), inputs=None):
+        d = {"op": "edit", "slot": slot, "ops": ops, "what": what, "use": list(use), "stats": False}
+        if inputs:
+            d["inputs"] = inputs
+        return d
+
+    def a3(k, i, o):  # three modes, one of them heralded with k photons: two input modes
+        return [["new", "c1", 3], cg.op_bs("c1", 0, 1, F(3, 5), F(4, 5)), cg.op_bs("c1", 1, 2, F(4, 5), F(3, 5)), ["herald", "c1", k, i, o]]
+
+    def b2(k):  # two modes, the second heralded with k photons: one input mode
+        return [["new", "c1", 2], cg.op_bs("c1", 0, 1, F(3, 5), F(4, 5)), ["herald", "c1", k, 1, 1]]
+
+    def gate(sid, k, hi=1, ho=1):
+        return [["new", sid, 2], cg.op_bs(sid, 0, 1, F(4, 5), F(3, 5)), ["herald", sid, k, hi, ho]]
+
+    def case(progs, init, samplers, steps, photons, ctor="kwargs", state=None):
+        return {"kind": "hist", "prog": progs[0], "progs": progs, "ctor": ctor, "init": init, "samplers": samplers,
+                "state": state or samplers[0]["input"], "steps": steps, "photons": photons}
+
+    def smp(inp, b="permanent", attach="ctor"):
+        return {"backend": b, "input": inp, "attach": attach}
+
+    imp = {"nu": "3/4", "x": "1/10", "q": "3/5", "thr": "0"}
+    out = []
+    # herald photon number 1 -> 0 -> 1 and 0 -> 1 -> 0 (equal input size, input kept), imperfect source, both backends
+    out.append(case([a3(1, 0, 0), a3(0, 2, 2)], imp, [smp([1, 1]), smp([1, 1], "slos")],
+                    [rd((0, 1)), ci(1, (0, 1)), ci(0, (0, 1))], 3))
+    out.append(case([a3(0, 2, 2), a3(1, 0, 0)], imp, [smp([1, 1], "slos")], [rd(), ci(1), rd(), ci(0)], 3))
+    # the same with the default (perfect) Source: perfect settings = ideal distribution of the CURRENT full input
+    out.append(case([a3(1, 0, 0), a3(0, 2, 2)], dict(PERFECT), [smp([1, 1]), smp([0, 1], "slos")],
+                    [rd((0, 1)), ci(1, (0, 1)), ci(0, (0, 1))], 3, ctor="default"))
+    # herald photon numbers 2 -> 0 -> 1 -> 2 under one input mode
+    out.append(case([b2(2), b2(0), b2(1)], {"nu": "9/10", "x": "0", "q": "1/2", "thr": "0"}, [smp([1])],
+                    [rd(), ci(1), ci(2), ci(0), ci(2), ci(1)], 3))
+    # equal herald photon number on another herald mode (in != out), asymmetric input
+    out.append(case([a3(1, 0, 0), a3(1, 2, 1), a3(1, 1, 2)], {"nu": "1", "x": "1/20", "q": "9/10", "thr": "0"}, [smp([1, 0])],
+                    [rd(), ci(1), ci(2), ci(0)], 2))
+    # other total size, equal input size: no herald / a heralded gate inside / two heralds declared
+    plain = [["new", "c1", 2], cg.op_bs("c1", 0, 1, F(3, 5), F(4, 5))]
+    inner = gate("h0", 1) + plain + [["add", "c1", "h0", 1, True]]
+    wide = [["new", "c1", 4], cg.op_bs("c1", 0, 1, F(3, 5), F(4, 5)), cg.op_bs("c1", 2, 3, F(4, 5), F(3, 5)),
+            cg.op_bs("c1", 1, 2, F(5, 13), F(12, 13)), ["herald", "c1", 1, 3, 0], ["herald", "c1", 0, 0, 3]]
+    out.append(case([plain, inner, wide], {"nu": "1/2", "x": "1/3", "q": "1/2", "thr": "0"}, [smp([1, 1]), smp([1, 1], "slos", "setter")],
+                    [rd((0, 1)), ci(1, (0, 1)), ci(2, (0, 1)), ci(0, (0, 1)), ci(2, (1,), (0, 1)), ci(1, (0,), (0, 1))], 3))
+    # edited in place between reads: heralded gates added (1 photon, then 0 photons, ungrouped)
+    out.append(case([plain], {"nu": "1", "x": "0", "q": "3/5", "thr": "0"}, [smp([1, 1]), smp([1, 0], "slos")],
+                    [rd((0, 1)), ed(0, gate("e1", 1) + [["add", "c1", "e1", 0, True]], "heralded_gate_added", (0, 1)),
+                     ed(0, gate("e2", 0, 0, 1) + [["add", "c1", "e2", 1, False]], "heralded_gate_added", (0, 1))], 3))
+    # a herald declared in place (one input mode fewer: the input is re-assigned), twice
+    out.append(case([tri_prog(False)], imp, [smp([1, 0, 1])],
+                    [rd(), ed(0, [["herald", "c1", 1, 2, 2]], "herald_declared", inputs=[[0, [1, 0]]]),
+                     ed(0, [["herald", "c1", 0, 0, 1]], "herald_declared", inputs=[[0, [1]]])], 3))
+    # circuit and source settings change between two reads, in both orders, without a read in between
+    out.append(case([a3(1, 0, 0), a3(0, 2, 2)], imp, [smp([1, 0]), smp([0, 1], "slos")],
+                    [rd((0, 1)), st([["q", "1/2"]], ()), ci(1, (0, 1), ()), st([["x", "1/20"]], (0, 1)),
+                     ci(0, (0, 1), ()), st([["x", "0"], ["q", "1"]], (0, 1)), ci(1, (0, 1))], 2))
+    # Sampler.input_state re-assigned between reads under an imperfect source (same circuit)
+    out.append(case([tri_prog(True)], imp, [smp([1, 1, 0])],
+                    [rd(), {"op": "input", "who": 0, "input": [0, 1, 1], "use": [0], "stats": False},
+                     {"op": "input", "who": 0, "input": [2, 0, 0], "use": [0], "stats": False},
+                     {"op": "input", "who": 0, "input": [1, 1, 0], "use": [0], "stats": False}], 2))
+    # an edited circuit object that no Sampler holds is attached afterwards; the first object is edited while detached
+    out.append(case([a3(1, 0, 0), a3(0, 2, 2)], imp, [smp([1, 0])],
+                    [rd(), ed(1, [cg.op_bs("c1", 0, 2, F(5, 13), F(12, 13))], "components_appended"), ci(1),
+                     ed(0, gate("e1", 0) + [["add", "c1", "e1", 1, False]], "heralded_gate_added"), ci(0)], 2))
+    return out
+
+
+def par_corpus() -> list[dict]:
+    """directed parameter values at / next to every boundary, in the streams that judge them most directly"""
+    out: list = []
+    edge = NEAR1 + TINY
+    # g2 = 1 - purity (and the relation purity <-> two-photon weight) over the whole boundary grid of weights
+    for j, x in enumerate(X_EDGE + (X_CANCEL if INCLUDE_CANCELLATION_RANGE else [])):
+        out.append({"kind": "g2", "par": {"nu": ["1", "3/4", "1/10"][j % 3], "x": frac_str(x), "q": ["1", "3/5"][j % 2], "thr": "0"}})
+    # exact float purities next to 1 and next to the lower limit 0.5 (oracle only)
+    floats = [1 - 10.0**-k for k in range(1, 9)] + [0.5 + 10.0**-k for k in (1, 2, 4, 8, 12, 16)]
+    floats += [float(np.nextafter(1.0, 0.0)), float(np.nextafter(0.5, 1.0)), 0.995, 0.9950000000000001, 0.99, 0.999]
+    if not INCLUDE_CANCELLATION_RANGE:
+        floats = [v for v in floats if not 0 < 1 - v < 1e-4]
+    for j, v in enumerate(floats):
+        out.append({"kind": "g2f", "purity": repr(v), "nu": ["1", "1/2"][j % 2], "q": ["1", "9/10"][j % 2]})
+    # Hong-Ou-Mandel visibility = indistinguishability next to 1 and next to 0
+    for j, q in enumerate(edge):
+        out.append({"kind": "hom", "par": {"nu": ["1", "1/2"][j % 2], "x": "0", "q": frac_str(q), "thr": "0"}, "loss": [0, 0.25][j % 2]})
+    # the mixture on a small interferometer with brightness / indistinguishability / purity at the boundary grids
+    for j, e in enumerate(edge):
+        par = {"nu": frac_str(e), "x": frac_str(X_EDGE[(3 * j) % len(X_EDGE)]) if j % 4 else "0", "q": frac_str(edge[-1 - j]) if j % 3 else "1",
+               "thr": "0"}
+        out.append({"kind": "dist", "prog": tri_prog(j % 2 == 1), "input": [[1, 1, 0], [0, 2, 0], [1, 0, 1]][j % 3], "par": par, "photons": 2})
+    # thresholds next to 0 and next to 1
+    for j, t in enumerate(THR_EDGE):
+        par = {"nu": ["9/10", "1", frac_str(1 - F(1, 10**6))][j % 3], "x": ["1/400", "0", "0"][j % 3], "q": ["99/100", "1", "1"][j % 3],
+               "thr": frac_str(t)}
+        out.append({"kind": "stats", "state": [[1, 1], [1], [2, 0, 1]][j % 3], "par": par})
     return out
 
 
@@ -1100,8 +1605,26 @@ def hist_corpus() -> list[dict]:
 
 
 def run_case(ctx: Ctx, case: dict) -> list[str]:
-    return {"stats": run_stats, "dist": run_dist, "g2": run_g2, "hom": run_hom, "bad": run_bad,
+    return {"stats": run_stats, "dist": run_dist, "g2": run_g2, "hom": run_hom, "bad": run_bad, "g2f": run_g2f,
             "hist": run_hist}[case["kind"]](ctx, case)
+
+
+def drop_sampler(st: dict, remap: dict) -> dict:
+    """the step of a history without one of the Samplers (remap: old index -> new index of the others)"""
+    out = {k: v for k, v in st.items() if k != "via"}
+    out["use"] = [remap[j] for j in st["use"] if j in remap]
+    if st.get("via") in remap:
+        out["via"] = remap[st["via"]]
+    if st["op"] == "circuit":
+        out["who"] = [remap[j] for j in st["who"] if j in remap]
+    if "inputs" in st:
+        out["inputs"] = [[remap[j], v] for j, v in st["inputs"] if j in remap]
+    if st["op"] == "input":
+        if st["who"] in remap:
+            out["who"] = remap[st["who"]]
+        else:
+            out = {"op": "set", "set": [], "use": out["use"], "stats": st["stats"]}
+    return out
 
 
 def shrink(ctx: Ctx, case: dict) -> dict:
@@ -1128,8 +1651,7 @@ def shrink(ctx: Ctx, case: dict) -> dict:
             for i in reversed(range(len(cur["samplers"]))):
                 remap = {j: j - (j > i) for j in range(len(cur["samplers"])) if j != i}
                 cand = {**cur, "samplers": [sp for j, sp in enumerate(cur["samplers"]) if j != i],
-                        "steps": [{**{k: v for k, v in st.items() if k != "via"}, "use": [remap[j] for j in st["use"] if j in remap],
-                                   **({"via": remap[st["via"]]} if st.get("via") in remap else {})} for st in cur["steps"]]}
+                        "steps": [drop_sampler(st, remap) for st in cur["steps"]]}
                 if fails(cand):
                     cur = cand
             # one assignment per step where that is enough; observations that are not needed
@@ -1144,8 +1666,15 @@ def shrink(ctx: Ctx, case: dict) -> dict:
                 cand = {**cur, "steps": cur["steps"][:k] + [{**st, "use": [], "stats": False}] + cur["steps"][k + 1:]}
                 if fails(cand):
                     cur = cand
-            small = ddmin(cur["prog"], lambda sub: cg.well_formed(sub) and fails({**cur, "prog": sub}), max_tests=40)
-            cur = {**cur, "prog": small}
+            progs = cur.get("progs") or [cur["prog"]]
+            for k in range(len(progs)):
+                def with_prog(sub, k=k):
+                    ps = [sub if j == k else q for j, q in enumerate(progs)]
+                    return {**cur, "prog": ps[0], **({"progs": ps} if "progs" in cur else {})}
+
+                small = ddmin(progs[k], lambda sub: cg.well_formed(sub) and fails(with_prog(sub)), max_tests=40 if len(progs) == 1 else 20)
+                cur = with_prog(small)
+                progs = cur.get("progs") or [cur["prog"]]
         except Exception:  # noqa: BLE001
             pass
         return {**cur, "shrunk": True}
@@ -1178,6 +1707,9 @@ def report(ctx: Ctx, case: dict, probs: list[str]) -> None:
     if oracle:
         if "removes every" in oracle[0]:
             kind = "threshold-removes-all-inputs"
+        elif "purity_to_prob(" in oracle[0] or scase["kind"] == "g2f":
+            near = scase["kind"] == "g2f" and 0 < 1 - float(scase["purity"]) < 1e-4 or "par" in scase and 0 < F(scase["par"]["x"]) < X_WELL
+            kind = "g2-purity-relation" + (":cancellation-range" if near else "")
         else:
             kind = oracle[0].split(":", 1)[1].strip()[:40]
         if scase["kind"] == "hist":
@@ -1201,9 +1733,53 @@ def hist_branches(ctx: Ctx, case: dict) -> bool:
         ctx.count("hist:source_attached_through_Sampler.source")
     used_before = False
     changed = full_seen = False
+    ns = len(case["samplers"])
+    slot_of = [0] * ns
+    read_since = [False] * ns  # sampler i has been read since its circuit / input last changed
+    seen_slots = [{0} for _ in range(ns)]
+    circ_changed = False
+    if len(case.get("progs") or []) > 1:
+        ctx.count("hist:circuit_variants=" + str(len(case["progs"])))
     for st in case["steps"]:
         prev = dict(cur)
-        if st["op"] == "set":
+        touched: list = []
+        if st["op"] == "circuit":
+            ctx.count("hist:circuit_reassigned")
+            for i in st["who"]:
+                if i >= ns:
+                    continue
+                touched.append(i)
+                ctx.count("hist:circuit_reassigned_" + ("after_a_read" if read_since[i] else "before_any_read_of_the_previous"))
+                if st["slot"] in seen_slots[i]:
+                    ctx.count("hist:circuit_back_to_an_earlier_object")
+                seen_slots[i].add(st["slot"])
+                slot_of[i] = st["slot"]
+            if len(st["who"]) < ns:
+                ctx.count("hist:circuit_reassigned_on_one_of_two_samplers")
+            ctx.count("hist:circuit_reassigned_" + ("with_new_input" if st.get("inputs") else "input_kept"))
+        elif st["op"] == "edit":
+            ctx.count("hist:circuit_edited_in_place")
+            ctx.count("hist:edit:" + st.get("what", "other"))
+            touched = [i for i in range(ns) if slot_of[i] == st["slot"]]
+            ctx.count("hist:edit_of_" + ("a_held_circuit" if touched else "a_detached_circuit"))
+            if any(read_since[i] for i in touched):
+                ctx.count("hist:edit_after_a_read")
+        elif st["op"] == "input":
+            ctx.count("hist:input_state_reassigned")
+            touched = [st["who"]]
+        if touched or st["op"] in ("circuit", "edit", "input"):
+            circ_changed = True
+            if not is_basic(cur):
+                ctx.count("hist:circuit_or_input_change_under_imperfect_source")
+            for i in touched:
+                if i < ns:
+                    read_since[i] = False
+        for i in st["use"]:
+            if i < ns:
+                read_since[i] = True
+        if st["op"] in ("circuit", "edit", "input"):
+            pass
+        elif st["op"] == "set":
             for key, val, form in st["set"]:
                 cur[key] = val
                 ctx.count("hist:set:" + ATTR[key])
@@ -1236,7 +1812,7 @@ def hist_branches(ctx: Ctx, case: dict) -> bool:
         if len(st["use"]) < len(case["samplers"]):
             ctx.count("hist:a_sampler_skips_this_setting")
     ctx.count(f"hist:steps={len(case['steps'])}")
-    return changed and full_seen
+    return (changed or circ_changed) and full_seen
 
 
 def branches(ctx: Ctx, case: dict) -> None:
@@ -1249,6 +1825,18 @@ def branches(ctx: Ctx, case: dict) -> None:
     ctx.count("indist=1" if q == 1 else "indist=0" if q == 0 else "0<indist<1")
     if thr > 0:
         ctx.count("probability_threshold>0")
+    # boundary neighbourhoods
+    for name, v in (("brightness", nu), ("sqrt_indist", q), ("threshold", thr)):
+        if 0 < 1 - v <= F(1, 10):
+            ctx.count(f"edge:{name}=1-1e-k" + ("(k>=5)" if 1 - v <= F(1, 10**5) else ""))
+        if 0 < v <= F(1, 10) and name != "threshold":
+            ctx.count(f"edge:{name}=1e-k" + ("(k>=5)" if v <= F(1, 10**5) else ""))
+    if 0 < thr <= F(1, 1000):
+        ctx.count("edge:threshold<=1e-3")
+    if x > 0:
+        g = 1 - purity_of(x)
+        ctx.count("edge:1-purity in " + ("(0,1e-4)" if x < X_WELL else "[1e-4,1e-3)" if g < 1e-3 else "[1e-3,5e-3)" if g < 5e-3 else
+                                         "[5e-3,1e-2)" if g < 1e-2 else "[1e-2,1e-1)" if g < 0.1 else "[0.1,0.49)" if g < 0.49 else "[0.49,0.5)"))
 
 
 def run(ctx: Ctx) -> None:
@@ -1268,7 +1856,7 @@ def run(ctx: Ctx) -> None:
     for _ in range(ctx.n(140, 3000)):
         if ctx.out_of_time():
             break
-        par = gen_par(rng)
+        par = gen_par(rng, cancel=True)
         if not INCLUDE_OVER_THRESHOLD and F(par["thr"]) > F(1, 20):
             par["thr"] = "0"
         x = F(par["x"])
@@ -1286,14 +1874,14 @@ def run(ctx: Ctx) -> None:
     for _ in range(ctx.n(10, 100)):
         if ctx.out_of_time():
             break
-        par = gen_par(rng, thr=False)
+        par = gen_par(rng, thr=False, edge=0.5, cancel=True)
         if F(par["nu"]) == 0:
             par["nu"] = "1/2"
         cases.append({"kind": "g2", "par": par})
     for _ in range(ctx.n(10, 100)):
         if ctx.out_of_time():
             break
-        par = gen_par(rng, thr=False)
+        par = gen_par(rng, thr=False, edge=0.5)
         par["x"] = "0"
         if F(par["nu"]) == 0:
             par["nu"] = "3/4"
@@ -1318,11 +1906,24 @@ def run(ctx: Ctx) -> None:
             continue
         nh += 1
         cases.append(case)
+    # histories in which the circuit / input of the long-lived Samplers changes between reads
+    nh = 0
+    tries = 0
+    while nh < ctx.n(N_HIST_CIRC_QUICK, 400) and tries < 20000:
+        if ctx.out_of_time():
+            break
+        tries += 1
+        case = gen_hist_circ(ctx, rng)
+        if case is None:
+            ctx.count("skipped:too_large")
+            continue
+        nh += 1
+        cases.append(case)
     # directed: the smallest configuration in which the threshold removes every input
     if INCLUDE_OVER_THRESHOLD:
         cases.insert(0, {"kind": "stats", "state": [1, 1], "par": {"nu": "1/2", "x": "0", "q": "1", "thr": "9/10"}})
-    # directed histories run first
-    cases[0:0] = hist_corpus()
+    # directed histories and directed parameter boundaries run first
+    cases[0:0] = hist_corpus() + par_corpus()
     for i, case in enumerate(cases):
         probs = run_case(ctx, case)
         ctx.count("stream:" + case["kind"])
@@ -1348,7 +1949,7 @@ def run(ctx: Ctx) -> None:
                     ctx.count("input:bunched")
             ctx.count(f"photons:{nph}")
             nontrivial = nph >= 2 and full_path
-        elif case["kind"] in ("g2", "hom"):
+        elif case["kind"] in ("g2", "hom", "g2f"):
             nontrivial = True
         elif case["kind"] == "hist":
             nontrivial = hist_branches(ctx, case)
